@@ -179,16 +179,6 @@ Proof.
     destruct He as (data & rest & He & Hlen). rewrite He, Hlen. apply Z.eqb_refl.
 Qed.
 
-(* the oracle on the model for the value and chunk cases *)
-Definition proved_case (c : case) : Prop := match c with CLen _ _ _ _ => False | _ => True end.
-Theorem oracle_holds_partial c : valid c -> proved_case c -> known c = 0 ->
-  oracle c (C03.Model.run c) = true.
-Proof.
-  intros Hv Hp _. destruct c as [t v o|ctx L o payload|o size body]; [|contradiction|].
-  - destruct Hv as [Hw Hpl]. apply oracle_val_case; assumption.
-  - destruct Hv as (Hs & _ & Hm). apply oracle_chunk_case; assumption.
-Qed.
-
 Example nested_limits_example :
   let o := mk_opts 3 65535 1000 327675 10 0 in
   let v := UV (VArray 12 [VS (SStr (Some [97; 98])); VS (SStr (Some [97; 98; 99; 100]))] None) in
